@@ -5,6 +5,7 @@ from analysis.facts import AnchorError
 from analysis import terms as T
 from analysis import chessref as R
 
+THOROUGH_CONFIGS = ['release', 'nobmi2', 'movegen-alone']
 LEVEL = "proof"
 EXHAUSTIVE = True
 DECIDED = ("The decoder BookMovesIter::next is extracted from MIR as a 4-case summary (read BOOK[index]; 0 ends the list; otherwise read BOOK[index-1], yield a move "
